@@ -219,7 +219,12 @@ def check_case(p, ctx):
     f_ref, f_rep = objective(M, b, x_ref), objective(M, b, x_rep)
     bb = float(b @ b)
     if rec["path"] == "lsq":
-        if f_rep - f_ref > 2e-2 * f_ref + 1e-8 * bb:
+        raw = rec["xres"]
+        if bool(np.any((raw <= 1e-8) & (x_ref > 1e-6))):
+            ctx.known("D27")
+            ctx.exclude_known("D27")
+            ctx.count("lsq-stuck-on-bound(D27)")
+        elif f_rep - f_ref > 1e-3 * f_ref + 1e-8 * bb:
             return ctx.violation("restricted-not-optimal:lsq", p, observed=f_rep, expected=f_ref)
     else:
         ok, info = kkt_report(M, b, x_rep)
